@@ -22,11 +22,12 @@ import (
 // Tables are built through real traffic; the reference selection works on the hook snapshot.
 
 // bucket content options: list of entry kinds
-//   g4/g6  answered our ping just now (good)
-//   q4     answered our ping 16 minutes ago, silent since (questionable)
-//   r4     answered 16 minutes ago and queried us just now (good by the BEP 5 rule)
-//   n4/n6  only ever queried us (never responded)
-//   b4     answered once, then failed a questionable-node ping (bad)
+//
+//	g4/g6  answered our ping just now (good)
+//	q4     answered our ping 16 minutes ago, silent since (questionable)
+//	r4     answered 16 minutes ago and queried us just now (good by the BEP 5 rule)
+//	n4/n6  only ever queried us (never responded)
+//	b4     answered once, then failed a questionable-node ping (bad)
 var c09Options = map[string][]string{
 	"-":    {},
 	"g":    {"g4"},
